@@ -1434,9 +1434,20 @@ _ical_proc(struct ical_parser_s p[static 1U])
 					res = ICAL_EOP;
 					break;
 				}
-				/*@fallthrough@*/
+				/* vcal in vcal? */
+				p->st = ST_UNK;
+				res = ICAL_EOP;
+				break;
+
 			default:
-				/* vcal in vcal? or, worse, some other field? */
+				if (LIKELY(c->fld == FLD_BEGIN)) {
+					/* a component we know of but don't care
+					 * about (VJOURNAL), skip it like the ones
+					 * we don't know */
+					p->st = ST_VOTH;
+					break;
+				}
+				/* something ends that never began */
 				p->st = ST_UNK;
 				res = ICAL_EOP;
 				break;
